@@ -81,8 +81,8 @@ impl TryReadFromBytes for SequenceNumberSet {
         if num_bits > 256 {
             return Err(RtpsMessageError::InvalidData);
         }
-        // Every sequence number the set can hold must be representable
-        if base.checked_add(num_bits as i64).is_none() {
+        // Every sequence number the set can hold (base ..= base + numBits - 1) must be representable
+        if num_bits > 0 && base.checked_add(num_bits as i64 - 1).is_none() {
             return Err(RtpsMessageError::InvalidData);
         }
         let number_of_bitmap_elements = num_bits.div_ceil(32) as usize; //In standard referred to as "M"
